@@ -204,10 +204,11 @@ func run(c *evid.Case) {
 			continue
 		}
 		// this round fails
-		mode := rng.Intn(3)
+		mode := rng.Intn(4)
 		if leaderSilent {
 			mode = 0
 		}
+		var lockedOp spectypes.OperatorID // the only operator that prepared in this round (mode 3)
 		switch mode {
 		case 0: // proposal lost
 			cl.DropWhere(isType(specqbft.ProposalMsgType, r))
@@ -218,6 +219,16 @@ func run(c *evid.Case) {
 			cl.DeliverWhere(isType(specqbft.PrepareMsgType, r), 100000)
 			cl.DropWhere(isType(specqbft.CommitMsgType, r))
 			pattern += "p"
+		case 3: // everybody accepts the proposal, only one operator sees the prepare quorum: a prepared minority whose
+			// round change reaches the next leader after that leader's quorum of unprepared ones (and before the leader's own
+			// proposal comes back to it)
+			lockedOp = hon[rng.Intn(len(hon))].ID
+			cl.DeliverWhere(isType(specqbft.RoundChangeMsgType, 0), 100000)
+			cl.DeliverWhere(isType(specqbft.ProposalMsgType, r), 100000)
+			cl.DeliverWhere(func(fl *dsim.Flight) bool { return isType(specqbft.PrepareMsgType, r)(fl) && fl.To == lockedOp }, 100000)
+			cl.DropWhere(isType(specqbft.PrepareMsgType, r))
+			cl.DropWhere(isType(specqbft.CommitMsgType, r))
+			pattern += "m"
 		default: // the proposal reaches only a subset, no prepare quorum
 			keep := hon[rng.Intn(len(hon))].ID
 			cl.DeliverWhere(isType(specqbft.RoundChangeMsgType, 0), 100000)
@@ -237,18 +248,25 @@ func run(c *evid.Case) {
 			tos = hon[:f+1]
 			pattern += "q"
 		}
+		lateLocked := lockedOp != 0 && rng.Intn(4) != 0
+		deliverRCs := func() {
+			if lateLocked {
+				cl.DeliverWhere(func(fl *dsim.Flight) bool { return isType(specqbft.RoundChangeMsgType, 0)(fl) && fl.From != lockedOp }, 100000)
+			}
+			cl.DeliverWhere(isType(specqbft.RoundChangeMsgType, 0), 100000)
+		}
 		for _, op := range tos {
 			if roundOf(op) == r {
 				_ = cl.FireTimeout(op, role)
 			}
 		}
-		cl.DeliverWhere(isType(specqbft.RoundChangeMsgType, 0), 100000)
+		deliverRCs()
 		for _, op := range hon { // stragglers that did not follow
 			if roundOf(op) == r {
 				_ = cl.FireTimeout(op, role)
 			}
 		}
-		cl.DeliverWhere(isType(specqbft.RoundChangeMsgType, 0), 100000)
+		deliverRCs()
 	}
 	cl.DrainAll(200000)
 	decided := decidedAll()
